@@ -55,6 +55,43 @@ def check_case(entry: L.Entry, v, opts: int | None = None):
     return out
 
 
+def check_alike(em: L.Entry, ec: L.Entry, v):
+    """"through mixin methods and through Encoder/Decoder objects alike": the two documents denote the same
+    tree, and each side decodes the other side's document to the original value."""
+    F = em.F
+    out = []
+    try:
+        dm, dc = em.encode(v), ec.encode(v)
+    except Exception:
+        return out          # reported by check_case of the side that raised
+    try:
+        pm, pc = L.parse_doc(F, dm), L.parse_doc(F, dc)
+        if not L.tree_eq(pm, pc):
+            out.append(("alike-doc", f"mixin document {pm!r}"[:400] + f" | codec document {pc!r}"[:400], "equal documents"))
+    except Exception as e:
+        out.append(("alike-doc", _exc(e), "both documents parse"))
+    for phase, dec, doc in (("alike-decode-codec-on-mixin-doc", ec, dm), ("alike-decode-mixin-on-codec-doc", em, dc)):
+        try:
+            w = dec.decode(doc)
+        except Exception as e:
+            out.append((phase, _exc(e), "the original value"))
+        else:
+            if not L.same(w, v):
+                out.append((phase, L.vsrc(w) if _srcable(w) else repr(w), L.vsrc(v)))
+    return out
+
+
+def has_date_key(v) -> bool:
+    import datetime as dt
+    if dataclasses.is_dataclass(v):
+        return any(has_date_key(getattr(v, f.name)) for f in dataclasses.fields(v))
+    if isinstance(v, dict):
+        return any(isinstance(k, dt.date) for k in v) or any(has_date_key(x) for x in v.values())
+    if isinstance(v, (list, tuple, set, frozenset)):
+        return any(has_date_key(x) for x in v)
+    return False
+
+
 def _srcable(w) -> bool:
     try:
         L.vsrc(w)
@@ -79,7 +116,12 @@ def check_composition(entry: L.Entry, v, opts: int = 0):
             want = L.ser_doc(F, nb)
         got = entry.encode(v)
         if want != got:
-            out.append(("composition", repr(got)[:300], repr(want)[:300]))
+            if F == "orjson" and entry.dialect is not None and opts and L.tree_eq(L.parse_doc(F, got), L.parse_doc(F, want)):
+                # observation (not a C04 violation: the document is the same tree): with a call-time dialect
+                # the generated method calls encoder(...) without the encoder kwargs, so orjson_options is ignored
+                out.append(("observation-orjson_options-ignored-with-call-dialect", "", ""))
+            else:
+                out.append(("composition", repr(got)[:300], repr(want)[:300]))
     except Exception as e:
         out.append(("composition", _exc(e), "ser_F(pack_F(v))"))
         return out, None
@@ -160,14 +202,24 @@ def signature(S: L.Schema, F: str, kind: str, phase: str, observed: str, v, shp=
             and observed.startswith("AttributeError: type object 'attrs_") and "has no attribute '__mashumaro_" in observed:
         sig["kind"] = "codec-self-referencing-dataclass"
         return sig
-    if F == "orjson" and phase in ("roundtrip", "doc") and has_orjson_bad_time(v) and orjson_time_defect_present():
+    if shp is not None and F in ("orjson", "msgpack", "toml") and kind in ("mixin", "mixin-str") \
+            and "dbase" in L.kinds_deep(shp, S) and phase != "composition":
+        sig["kind"] = "format-base-typed-field-subclass-fields-dropped"
+        return sig
+    if phase.startswith("alike-decode"):
+        phase_class = "decode-or-roundtrip"
+    else:
+        phase_class = phase
+    if F == "orjson" and (phase in ("roundtrip", "doc") or phase_class == "decode-or-roundtrip") and has_orjson_bad_time(v) and orjson_time_defect_present():
         sig["kind"] = "orjson-library-time-microseconds-5-digits"
-    if F == "toml" and phase in ("decode", "roundtrip"):
+    if F == "toml" and (phase in ("decode", "roundtrip") or phase_class == "decode-or-roundtrip"):
         hits = none_fields_without_none_default(S, v)
         if hits:
-            if phase == "decode" and any(f'MissingField: Field "{h}"' in observed for h in hits):
+            # (a union position swallows the member's MissingField and reports ValueError(<the document>))
+            if any(f'MissingField: Field "{h}"' in observed for h in hits) or \
+                    (phase != "roundtrip" and not phase.endswith("-doc") and ("<- ValueError: {" in observed or observed.startswith("ValueError: {"))):
                 sig["kind"] = "toml-omitted-none-field-without-none-default"
-            elif phase == "roundtrip":
+            elif phase == "roundtrip" or (phase_class == "decode-or-roundtrip" and "Error" not in observed.split(":")[0]):
                 sig["kind"] = "toml-omitted-none-field-without-none-default"
     return sig
 
@@ -192,15 +244,20 @@ def oracle(ctx: vlib.Ctx, n_schemas: int, n_values: int, focus: str | None = Non
     per_kind: dict = {}
     for si in range(n_schemas):
         jsonkind = rng.choice(["json", "orjson"])
-        S = L.Schema(rng, jsonkind)
+        dialect_mode = rng.random() < 0.3
+        S = L.Schema(rng, jsonkind, dialect_mode=dialect_mode)
         depth = rng.choice([1, 2, 2, 3])
         root = S.new_dc(depth, root=True)
+        xds = rng.sample(L.USER_DIALECTS, 2) if dialect_mode else []
         opts = 0
         if jsonkind == "orjson" and rng.random() < 0.5:
             opts = lossless_orjson_options(rng)
             if opts:
                 # Config of the root class: encoder kwargs resolved from Config (builder.py _get_encoder_kwargs)
-                S.defs[-1] += f"    class Config:\n        orjson_options = {opts}\n"
+                if S.classes[root.name]["has_config"]:
+                    S.defs[-1] += f"        orjson_options = {opts}\n"
+                else:
+                    S.defs[-1] += f"    class Config(BaseConfig):\n        orjson_options = {opts}\n"
         src = S.source()
         modname = f"c04_gen_{ctx.seed}_{si}"
         try:
@@ -237,7 +294,8 @@ def oracle(ctx: vlib.Ctx, n_schemas: int, n_values: int, focus: str | None = Non
             for shp, _ in shapes:
                 shape_ann = L.ann(shp)
                 shape_obj = eval(shape_ann, ns)
-                for kk in sorted(L.kinds_deep(shp, S)):
+                shape_kinds = L.kinds_deep(shp, S)
+                for kk in sorted(shape_kinds):
                     ctx.hist("type_kinds", kk)
                 vals = [L.gen_value(shp, S, mod, rng) for _ in range(n_values)]
                 for vi, v in enumerate(vals):
@@ -248,29 +306,51 @@ def oracle(ctx: vlib.Ctx, n_schemas: int, n_values: int, focus: str | None = Non
                         if why:
                             ctx.hist("outside_subset", f"{F}:{why}")
                             continue
-                        kinds_ = ["codec"]
-                        if shp is root and (F not in ("json", "orjson") or F == jsonkind):
-                            kinds_.append("mixin")
+                        on_root = shp is root and (F not in ("json", "orjson") or F == jsonkind)
+                        # a Base-typed position holding a subclass instance (class-level discriminator) is packed by
+                        # the codec path with Base's packer only (static dispatch, the D8 family of C02/C15):
+                        # such shapes are exercised through the mixin methods only
+                        codec_ok = "dbase" not in shape_kinds
+                        specs = [("codec", None)] if codec_ok else []
+                        if on_root:
+                            specs.append(("mixin", None))
                             if F == "orjson":
-                                kinds_.append("mixin-str")
-                        if vi == 0:
-                            kinds_.append("func")
-                        for kind in kinds_:
+                                specs.append(("mixin-str", None))
+                        if vi == 0 and codec_ok:
+                            specs.append(("func", None))
+                        for xd in xds:           # user dialect: at call time (mixin) / as default_dialect (codec)
+                            if codec_ok:
+                                specs.append(("codec", xd))
+                            if on_root:
+                                specs.append(("mixin", xd))
+                        built = {}
+                        for kind, xd in specs:
+                            label = kind + ("+dialect" if xd else "")
+                            if xd == "XD_date" and has_date_key(v):
+                                # the user strategy renders a date as an int: as a mapping key it is not a string any more
+                                ctx.hist("outside_subset", f"{F}:user-dialect-makes-key-non-string")
+                                continue
                             try:
-                                entry = L.Entry(F, kind, shape_obj if kind != "mixin" and kind != "mixin-str" else rootcls, cache)
+                                entry = L.Entry(F, kind, shape_obj if kind not in ("mixin", "mixin-str") else rootcls, cache,
+                                                dialect=ns[xd] if xd else None)
                             except Exception as e:
                                 fails = [("build", _exc(e), "codec objects are created")]
                                 entry = None
                             else:
+                                built[(kind, xd)] = entry
                                 fails = check_case(entry, v)
                                 if kind == "mixin":
                                     comp, law = check_composition(entry, v, opts if F == "orjson" else 0)
-                                    fails += comp
+                                    for c_ in comp:
+                                        if c_[0].startswith("observation-"):
+                                            ctx.hist("observations", c_[0][12:])
+                                        else:
+                                            fails.append(c_)
                                     if law and not (F == "orjson" and has_orjson_bad_time(v) and orjson_time_defect_present()):
                                         law_fail.append((F, law))
                                     elif law:
                                         ctx.hist("fmt_law_known_library_defect", "orjson-time-microseconds")
-                                    if F == "orjson" and opts and vi == 1:
+                                    if F == "orjson" and opts and vi == 1 and not xd:
                                         # call-time override of the Config value
                                         import orjson
                                         try:
@@ -280,20 +360,28 @@ def oracle(ctx: vlib.Ctx, n_schemas: int, n_values: int, focus: str | None = Non
                                                 fails.append(("orjson_options-override", repr(got)[:200], repr(want)[:200]))
                                         except Exception as e:
                                             fails.append(("orjson_options-override", _exc(e), "document"))
-                            ctx.count((shape_ann, F, kind, L.vsrc(v)))
+                                    # mixin methods and codec objects alike, on the same documents
+                                    ec = built.get(("codec", xd))
+                                    if ec is not None:
+                                        fails += check_alike(entry, ec, v)
+                            ctx.count((shape_ann, F, label, xd, L.vsrc(v)))
                             ctx.hist("formats", F)
-                            ctx.hist("entry", kind)
+                            ctx.hist("entry", label)
+                            if xd:
+                                ctx.hist("user_dialects", xd)
                             if si < 2 and vi == 0 and kind == "codec" and F == "toml":
-                                ctx.sample({"shape": shape_ann, "format": F, "entry": kind, "value": L.vsrc(v)[:300]})
+                                ctx.sample({"shape": shape_ann, "format": F, "entry": label, "dialect": xd, "value": L.vsrc(v)[:300]})
                             for phase, observed, expected in fails:
                                 nfail += 1
                                 sig = signature(S, F, kind, phase, observed, v, shp)
-                                ctx.hist("failures", f"{F}:{kind}:{phase}:{sig['kind']}")
+                                if xd:
+                                    sig["dialect"] = xd
+                                ctx.hist("failures", f"{F}:{label}:{phase}:{sig['kind']}")
                                 per_kind[sig["kind"]] = per_kind.get(sig["kind"], 0) + 1
                                 if per_kind[sig["kind"]] <= (300 if sig["kind"] == "other" else 40):
-                                    ctx.fail(f"{F}/{kind}: {phase} fails on {shape_ann}: {observed[:160]}",
+                                    ctx.fail(f"{F}/{label}{'['+xd+']' if xd else ''}: {phase} fails on {shape_ann}: {observed[:160]}",
                                              {"entry": "format-roundtrip", "src": src, "shape": shape_ann, "root": root.name,
-                                              "format": F, "kind": kind, "value_src": L.vsrc(v), "phase": phase,
+                                              "format": F, "kind": kind, "dialect": xd, "value_src": L.vsrc(v), "phase": phase,
                                               "orjson_options": opts, "observed": observed, "expected": expected},
                                              sig)
         finally:
@@ -310,7 +398,10 @@ def correspondence_cases(ctx: vlib.Ctx, n_schemas: int, n_values: int):
     cases, descr = [], []
     for si in range(n_schemas):
         jsonkind = rng.choice(["json", "orjson"])
-        S = L.Schema(rng, jsonkind, small=True)
+        # a third of the schemas enable ADD_DIALECT_SUPPORT and are driven with a call-time dialect that covers
+        # nothing: the model's prediction is unchanged (the format's own dialect must still apply)
+        dm = rng.random() < 0.35
+        S = L.Schema(rng, jsonkind, small=True, dialect_mode=dm)
         root = S.new_dc(rng.choice([1, 2, 2, 3]), root=True)
         src = S.source()
         modname = f"c04_corr_{ctx.seed}_{si}"
@@ -323,14 +414,15 @@ def correspondence_cases(ctx: vlib.Ctx, n_schemas: int, n_values: int):
                 tab, unrepr = [], {}
                 pvc = L.coq_pv(v, root, S, tab, unrepr)
                 tabc = "[" + "; ".join(f"({k}, {vlib.coq_str(p)}, {vlib.coq_str(t)})" for k, p, t in dict.fromkeys(tab)) + "]"
-                basic = v.to_dict()
+                xd = mod.__dict__["XD_empty"] if dm else None
+                basic = v.to_dict(dialect=xd) if dm else v.to_dict()
                 for F in FORMATS:
                     if F in ("json", "orjson") and F != jsonkind:
                         continue
                     if F == "orjson" and has_orjson_bad_time(v) and orjson_time_defect_present():
                         ctx.hist("correspondence_skipped", "orjson-library-time-defect")
                         continue
-                    entry = L.Entry(F, "mixin", rootcls)
+                    entry = L.Entry(F, "mixin", rootcls, dialect=xd)
                     nb = entry.native_tree(v)
                     why = L.outside_subset(F, v)
                     parsed, dec = "None", "DecOther"
@@ -349,7 +441,7 @@ def correspondence_cases(ctx: vlib.Ctx, n_schemas: int, n_values: int):
                                      L.FMT[F], tyc, pvc, tabc, bad, L.coq_bv(nb), L.coq_bv(basic),
                                      "true" if why is None else "false", parsed, dec))
                     descr.append({"format": F, "src": src, "root": root.name, "value_src": L.vsrc(v), "outside": why, "dec": dec})
-                    ctx.hist("correspondence_formats", F + (":outside-subset" if why else ""))
+                    ctx.hist("correspondence_formats", F + (":outside-subset" if why else "") + (":call-dialect" if dm else ""))
         except Exception as e:   # the implementation raised where the model is total: keep going, report
             ctx.hist("correspondence_errors", type(e).__name__)
             if not any(u["name"].startswith("correspondence: implementation raised") for u in ctx.unshown):
@@ -503,7 +595,7 @@ def run(ctx: vlib.Ctx):
     correspondence(ctx)
     broken = bool(ctx.unshown)
     names_oracle(ctx)
-    n_s, n_v = ctx.budget(160, 1100), ctx.budget(5, 8)
+    n_s, n_v = ctx.budget(160, 850), ctx.budget(5, 8)
     if broken:      # a proof obligation or the correspondence broke: search harder for a failing input
         n_s = ctx.budget(260, 3000)
     law_fail = oracle(ctx, n_s, n_v)
@@ -527,8 +619,9 @@ def replay(rep: dict) -> int:
         v = eval(rep["value_src"], ns)
         shape = eval(rep["shape"], ns)
         F, kind = rep["format"], rep["kind"]
+        xd = ns[rep["dialect"]] if rep.get("dialect") else None
         try:
-            entry = L.Entry(F, kind, ns[rep["root"]] if kind in ("mixin", "mixin-str") else shape)
+            entry = L.Entry(F, kind, ns[rep["root"]] if kind in ("mixin", "mixin-str") else shape, dialect=xd)
         except Exception as e:
             print("  build:", _exc(e))
             print("REPRODUCED" if rep["phase"] == "build" else "not reproduced (the codec objects cannot be built)")
@@ -536,8 +629,12 @@ def replay(rep: dict) -> int:
         fails = check_case(entry, v)
         if kind == "mixin":
             comp, law = check_composition(entry, v, rep.get("orjson_options", 0) if F == "orjson" else 0)
-            fails += comp
-        print("shape", rep["shape"], "format", F, "entry", kind)
+            fails += [c_ for c_ in comp if not c_[0].startswith("observation-")]
+            try:
+                fails += check_alike(entry, L.Entry(F, "codec", shape, dialect=xd), v)
+            except Exception as e:
+                print("  (codec side cannot be built:", _exc(e), ")")
+        print("shape", rep["shape"], "format", F, "entry", kind, "dialect", rep.get("dialect"))
         print("value", rep["value_src"][:500])
         for phase, observed, expected in fails:
             print(f"  {phase}: observed {observed[:300]} | expected {expected[:300]}")
